@@ -22,13 +22,15 @@ The two `toml::Map` configurations live in two builds of the harness.  The main 
 (`EXTRA_HARNESS["po"]`, feature `po` = toml/preserve_order), obtained in one batch on first use and
 cached by case line — so map_ordered cases count for the verdict exactly like all others.
 
-Known classes: a history is in the placeholder class when some call meets an `Item::None` entry left
+Known class: a history is in the placeholder class when some call meets an `Item::None` entry left
 behind by an earlier `&mut c[k]` in a way that shows it (decided by the extracted model classifier,
-command `cls`, the same definition the Coq theorems exclude: Model/Containers.v `first_sens`).
-  C16-tablelike-placeholder : the first such call is get/get_mut/iter/iter_mut (or the final observation)
-                              through `impl TableLike for InlineTable`  (DESIGN.md F11)
-  C16-placeholder-residue   : the first such call is insert/remove/entry/key/index-assign/extend/into_iter on a
-                              key that currently is a placeholder (Table, InlineTable, TableLike)
+command `cls`, the same definition the Coq theorems exclude: Model/Containers.v `tsens` / `first_sens`).
+  C16-placeholder-residue   : insert / insert_formatted / remove / remove_entry / entry (or_insert, insert, remove) /
+                              key / get_or_insert / index-assign / extend / owned into_iter applied to a key (or a
+                              container) that currently holds a placeholder (Table, InlineTable, TableLike view).
+The former class C16-tablelike-placeholder (DESIGN.md F11: `impl TableLike for InlineTable` did not filter
+placeholders in iter/iter_mut/get/get_mut) was repaired in /repo (commit acb0168); its witnesses stay in
+WITNESSES below as permanent cases and now have to satisfy the oracle like every other case.
 """
 import itertools
 import common
@@ -42,9 +44,9 @@ HARNESS = {"bin": "c16"}
 EXTRA_HARNESS = {"po": ("release", ("po",))}
 THEOREMS = [
     "C16_table / C16_inline / C16_inline_tablelike: forall h, touches_placeholder kd h = false -> outputs and final observation of the model = those of the reference ordered map",
-    "C16_table_refuted / C16_inline_refuted / C16_inline_tablelike_refuted: concrete histories in the class on which they differ",
+    "C16_table_refuted / C16_inline_refuted / C16_inline_tablelike_refuted: concrete histories in the class (write/entry paths on a placeholder key) on which they differ",
     "C16_array / C16_aot / C16_map_sorted / C16_map_ordered: forall h, outputs and final observation of the model = reference",
-    "C16_placeholder: len/is_empty/iter/get/contains_key/printed entries of Table and InlineTable ignore Item::None entries",
+    "C16_placeholder: len/is_empty/iter/get/contains_key/printed entries of Table, InlineTable and the TableLike view of InlineTable ignore Item::None entries, in every state",
 ]
 RULE = ("random call sequences of length <= 30 over keys {a,b,c} (payloads i0..i4, T, I) on each of the 7 container kinds, "
         "plus ALL histories of length <= 4 over keys {a,b} for a reduced call set per kind; "
@@ -399,9 +401,16 @@ def gen_cases(rng, tier):
 
 
 WITNESSES = [
-    # F11: TableLike for InlineTable shows the placeholder
+    # F11 (repaired, commit acb0168): TableLike for InlineTable must not show the placeholder
     ("inline_tl", "idxm,a;len;emp;iter;get,a;ck,a"),
+    ("inline_tl", "idxm,a;iter;iterm;get,a;getm,a;gkv,a;gkvm,a;len;emp;ck,a"),
     ("inline_tl", "idxm,a"),
+    ("inline_tl", "ins,b,i1;idxm,a;idxm,c;iter;get,a;get,c;len"),
+    # residue through the TableLike view
+    ("inline_tl", "idxm,a;ent,a"),
+    ("inline_tl", "idxm,a;key,a"),
+    ("inline_tl", "idxm,a;eoi,a,i1;len"),
+    ("inline_tl", "idxm,a;ins,b,i1;ins,a,i2;iter"),
     # residue: write paths on a placeholder key
     ("table", "idxm,a;ins,a,i1"),
     ("table", "idxm,a;ins,b,i1;ins,a,i2;iter"),
